@@ -201,6 +201,45 @@ func c12(c *Ctx) {
 			checkDecode(x, "one-bad-nibble")
 		}
 	}
+	// every Unicode code point as a one character string and embedded between digits (all of the BMP; beyond it
+	// every code point in thorough, every 7th in quick), partitioned over batches; plus invalid UTF-8 bytes
+	step := 7
+	if c.Thorough() {
+		step = 1
+	}
+	for cp := c.Batch; cp <= 0x10ffff; cp += c.NBatch {
+		if cp > 0xffff && (cp/c.NBatch)%step != 0 {
+			continue
+		}
+		if cp >= 0xd800 && cp <= 0xdfff {
+			continue
+		}
+		s := string(rune(cp))
+		checkEncode(s, "every-code-point")
+		checkEncode("12"+s, "every-code-point")
+		checkEncode(s+"345", "every-code-point")
+	}
+	c.Res.Count("code-points-swept", 1)
+	for i := 0; i < N/4; i++ {
+		// random multi-byte runes (low byte of the code point in the digit range now and then) inside digit strings
+		cp := rune(r.Pick(0x110000))
+		if r.Chance(0.5) {
+			cp = rune(r.Pick(0x1100)<<8 | 0x30 + r.Pick(10))
+		}
+		if cp >= 0xd800 && cp <= 0xdfff {
+			continue
+		}
+		n := r.Pick(12)
+		d := make([]byte, n)
+		for k := range d {
+			d[k] = byte('0' + r.Pick(10))
+		}
+		pos := 0
+		if n > 0 {
+			pos = r.Pick(n + 1)
+		}
+		checkEncode(string(d[:pos])+string(cp)+string(d[pos:]), "random-rune")
+	}
 	// every position of a 64-digit string / 64-byte slice, high and low nibble
 	for pos := 0; pos < 64; pos++ {
 		d := []byte("1234567890123456789012345678901234567890123456789012345678901234")
